@@ -89,6 +89,7 @@ impl super::Protocol for Protocol {
     }
 
     async fn write(&self, relpath: &str, content: &[u8], write_mode: WriteMode) -> Result<()> {
+        use tokio::io::AsyncWriteExt;
         let full_path = self.full_path(relpath);
         let mut options = tokio::fs::OpenOptions::new();
         options.write(true);
@@ -100,7 +101,34 @@ impl super::Protocol for Protocol {
                 options.create(true).truncate(true);
             }
         }
-        if let Err(err) = tokio::fs::write(&full_path, content).await {
+        let mut file = match options.open(&full_path).await {
+            Ok(file) => file,
+            Err(err)
+                if write_mode == WriteMode::CreateNew
+                    && err.kind() == io::ErrorKind::AlreadyExists
+                    && tokio::fs::metadata(&full_path)
+                        .await
+                        .is_ok_and(|m| m.is_file() && m.len() == 0) =>
+            {
+                // A zero-length file is what an interrupted write leaves behind: it holds
+                // no content, so it may be completed rather than refused.
+                tokio::fs::OpenOptions::new()
+                    .write(true)
+                    .open(&full_path)
+                    .await
+                    .map_err(|err| super::Error::io_error(&full_path, err))?
+            }
+            Err(err) => {
+                error!("Failed to open {full_path:?} for writing: {err:?}");
+                return Err(super::Error::io_error(&full_path, err));
+            }
+        };
+        let written = match file.write_all(content).await {
+            Ok(()) => file.flush().await,
+            Err(err) => Err(err),
+        };
+        drop(file);
+        if let Err(err) = written {
             error!("Failed to write {full_path:?}: {err:?}");
             if let Err(err2) = tokio::fs::remove_file(&full_path).await {
                 error!("Failed to remove {full_path:?}: {err2:?}");
